@@ -62,7 +62,9 @@ PROPS = {
         level="model_checking",
         rule="events = sign calls under the RNG hook (nonce observed or scripted) and verify calls on library-made, spec-made and OpenSSL-made signatures; "
              "distinct = distinct (key, id, message, nonce); non-trivial = all",
-        models=[dict(module="AnchorSM2", anchor=True, workers=1, about="SM2.tla reproduces the GM/T 0003.5 Annex signature, ciphertext and key agreement values (ASSUMEs)")],
+        models=[dict(module="AnchorSM2", anchor=True, workers=1, about="SM2.tla reproduces the GM/T 0003.5 Annex signature, ciphertext and key agreement values (ASSUMEs)"),
+                dict(module="MC_SM2Sig", cfg="MC_SM2Sig_q_none", tier="quick", about="toy curve F_11 (n = 7): every d, k, digest: Sign in range and verifies, code-shaped signer = standard; every (r', s') of the byte range: VerifyImpl <=> Valid"),
+                dict(module="MC_SM2Sig", cfg="MC_SM2Sig_none", tier="thorough", timeout=1500, about="same on the F_23 curve (n = 29), byte range 0..31: 268 801 states")],
         stages=[dict(suite="sm2sig", trace="TraceSM2", plan=dict(module="PlanSM2Sig", cfg_quick="PlanSM2Sig_q", cfg_thorough="PlanSM2Sig_t"),
                      required_classes={"both": ["sm2.sign/fixed-nonce", "sm2.sign/free-nonce", "sm2.verify/untouched"]})],
         assumptions=["SM2.tla transcribes GB/T 32918.2 (anchored by the GM/T 0003.5 Annex A signature as ASSUME)", "BigNat Java override (cross-checked by MC_BigNat)"],
@@ -72,10 +74,17 @@ PROPS = {
         rule="events = verify calls on valid signatures and on enumerated faults (all 512 bit flips, component substitutions, lengths 0..130, altered message/id/key, "
              "crafted digest-level cases from the TLC plan); distinct = distinct (key, id, message, signature bytes); non-trivial = all faulted events (class != untouched)",
         trivial_classes=("untouched",),
-        models=[dict(module="AnchorSM2", anchor=True, workers=1, about="SM2.tla reproduces the GM/T 0003.5 Annex values")],
+        models=[dict(module="AnchorSM2", anchor=True, workers=1, about="SM2.tla reproduces the GM/T 0003.5 Annex values"),
+                dict(module="MC_SM2Sig", cfg="MC_SM2Sig_q_none", tier="quick", about="toy curve F_11 (n = 7): every d, k, digest: Sign in range and verifies, code-shaped signer = standard; every (r', s') of the byte range: VerifyImpl <=> Valid"),
+                dict(module="MC_SM2Sig", cfg="MC_SM2Sig_none", tier="thorough", timeout=1500, about="same on the F_23 curve (n = 29), byte range 0..31: 268 801 states"),
+                dict(module="MC_SM2Sig", cfg="MC_SM2Sig_q_s-range", expect="violation", about="negative: verification without the s-range check must be refuted"),
+                dict(module="MC_SM2Sig", cfg="MC_SM2Sig_q_t-zero", expect="violation", about="negative: verification without the t = 0 check must be refuted"),
+                dict(module="MC_SM2Sig", cfg="MC_SM2Sig_q_compare", expect="violation", about="negative: verification without the final comparison must be refuted"),
+                dict(module="MC_SM2Sig", cfg="MC_SM2Sig_q_zero", expect="violation", about="negative: verification without the r,s != 0 check must be refuted"),
+                dict(module="MC_SM2Sig", cfg="MC_SM2Sig_q_inf", expect="violation", about="negative: the pinned commit's handling of [s]G + [t]P = O (x1 read as 0) must be refuted")],
         stages=[dict(suite="sm2ver", trace="TraceSM2", plan=dict(module="PlanSM2Sig", cfg_quick="PlanSM2Sig_q", cfg_thorough="PlanSM2Sig_t"),
                      required_classes={"both": ["sm2.verify/untouched", "sm2.verify/tampered64", "sm2.verify/len<64", "sm2.verify/len>64",
-                                                "sm2.verify_digest/digest.small-s", "sm2.verify_digest/digest.s+n", "sm2.verify_digest/digest.r+n", "sm2.verify_digest/digest.t=0"]})],
+                                                "sm2.verify_digest/digest.small-s", "sm2.verify_digest/digest.s+n", "sm2.verify_digest/digest.r+n", "sm2.verify_digest/digest.t=0", "sm2.verify_digest/digest.sum-is-infinity"]})],
         assumptions=["SM2.tla transcribes GB/T 32918.2", "BigNat Java override (cross-checked by MC_BigNat)"],
     ),
     "C05": dict(
